@@ -60,7 +60,11 @@ def parse_q(s):
 
 def make_fd(param, order=4):
     import aurel
-    return aurel.FiniteDifference(dict(param), fd_order=order, verbose=False)
+    param = dict(param)
+    boundary = param.pop("_boundary", None)       # harness-only key: the boundary option of the constructor
+    if boundary:
+        return aurel.FiniteDifference(param, fd_order=order, boundary=boundary, verbose=False)
+    return aurel.FiniteDifference(param, fd_order=order, verbose=False)
 
 
 def mkparam(N, mins, ds):
@@ -673,6 +677,15 @@ def search(ctx, deep):
         if rng.random() < 0.35:
             p = with_extras(rng, p)
             ctx.count("oracle_grids_with_extra_keys")
+        if rng.random() < 0.3:
+            # the grid is the same grid whatever the boundary option of the derivative operators
+            p["_boundary"] = rng.choice(("periodic", "symmetric", "no boundary"))
+            ctx.count("oracle_grids_with_boundary_option")
+        if rng.random() < 0.25:
+            # integer-typed parameters on ONE axis (e.g. xmin=-8, dx=1) next to float ones on the others
+            a = rng.choice(AX)
+            p[a + "min"], p["d" + a] = int(rng.choice((-8, 0, 3))), int(rng.choice((1, 2)))
+            ctx.count("oracle_grids_with_integer_axis")
         found += oracle_grid(ctx, p, order)
     # the documented example of the former defect
     found += oracle_grid(ctx, mkparam((30, 4, 4), (-10.5, 0.0, 0.0), (0.7, 0.1, 0.3)), 4)
